@@ -1023,6 +1023,11 @@ func buildIntrinsics() map[string]intrinsic {
 		ex.mapOrders = args[0].(*Term).IsTrue()
 		return nil
 	})
+	reg(vfn("MapOrdersIn"), func(ex *Exec, fr *frame, fn *ssa.Function, args []Value) Value {
+		ex.mapOrderFn = ex.concStrArg(args[0], "MapOrdersIn")
+		ex.mapOrders = ex.mapOrderFn != ""
+		return nil
+	})
 	reg(vfn("RandBudget"), func(ex *Exec, fr *frame, fn *ssa.Function, args []Value) Value {
 		ex.randBudget = int(ex.concretize(args[0].(*Term), "RandBudget"))
 		return nil
@@ -1147,6 +1152,12 @@ func buildIntrinsics() map[string]intrinsic {
 			r = ex.tc.And(r, ex.tc.Eq(a[i], b[i]))
 		}
 		return r
+	})
+
+	// ---- hash.GenHashMurMur: uninterpreted function of the key bytes (deterministic, collisions possible) ----
+	reg("github.com/ryogrid/SamehadaDB/lib/container/hash.GenHashMurMur", func(ex *Exec, fr *frame, fn *ssa.Function, args []Value) Value {
+		bs := ex.sliceByteTerms(args[0].(ByteSlice), "GenHashMurMur key")
+		return ex.tc.UF(fmt.Sprintf("murmur%d", len(bs)), 32, bs...)
 	})
 
 	// ---- sort.Slice: insertion sort through the interpreted comparison ----
